@@ -34,6 +34,10 @@ CLAIMED = {
          "Exploration by runtime monitoring with a purely relational oracle: for every variable occurrence of generated workspaces and every identifier token of the repository's testdata the four answers are cross-checked (references resolve to the same definition, the position is among the references of its own definition, highlight equals same-file references, hover names the identifier and says local iff the definition is a local declaration). Disagreements rooted in the known resolver trigger classes, multiply-assigned globals and member names are listed findings.",
          "No external oracle; R-lex only supplies identifier positions and R-bind the local/global nature of a definition. Sessions contain no didChange (highlight is throttled after edits). Member identifiers are only exercised on testdata.",
          "DESIGN.md 3/C12"),
+ "C10": ("Go race detector on a -race build under message floods + porcupine linearizability check of the recorded client history against a sequential replay",
+         "Exploration by runtime monitoring with two sanitizer-style oracles: (1) the server built with -race is flooded with overlapping queries (10 kinds) and mutators (didChange/didSave/didOpen/didClose/watched/configuration) that are never awaited, each phase repeated; every DATA RACE block is classified by handler pair (telemetry-only state is counted, not alarmed); (2) the client-side history is checked with porcupine against a model whose state is the number of mutators applied and whose expected answers come from replaying the same mutators sequentially on a fresh server (twice, unstable entries dropped). A death under flood is a violation as well.",
+         "Schedules are sampled by flooding and repetition, not enumerated; the evidence lists the (query kind x mutator kind) overlaps observed. The file system is constant inside a flood so that the sequential model is exact; empty highlight answers are exempt (wall-clock throttle).",
+         "DESIGN.md 3/C10"),
 }
 
 PENDING_REASON = "check not built yet in this revision of /verif (work in progress; see DESIGN.md section 3 for the planned monitor)"
